@@ -142,7 +142,8 @@ Section Checks.
 
   (* ---- the pipeline around the runner ---- *)
   Record pcfg := { g_checks : list N; s_checks : list N; blocks : list (list N * N);   (* checks, target *)
-                   dmarc : N }.        (* DMARC policy to apply: 0 none, 1 quarantine, 2 reject *)
+                   dmarc : N;          (* DMARC policy to apply: 0 none, 1 quarantine, 2 reject *)
+                   mod_fail : list N }. (* recipients for which the block's recipient modifier fails *)
   Record sess := { s_rn : runner; s_used : list N;             (* blocks in use, in order of first use *)
                    s_deliv : list (N * list N) }.              (* target -> recipients *)
   Definition block_checks (cfg : pcfg) (b : N) : list N :=
@@ -175,6 +176,14 @@ Section Checks.
         match check_rcpt (block_checks cfg b) r rn1 with
         | (rn2, false) => (with_rn s rn2, false)
         | (rn2, true) =>
+            (* the block's modifiers rewrite the recipient after its checks: a failure refuses the
+               recipient; the block stays (or becomes) one whose checks see the body - the modifier
+               state created for it is what the body stage iterates over *)
+            if existsb (N.eqb r) (mod_fail cfg) then
+              ({| s_rn := rn2;
+                  s_used := if existsb (N.eqb b) (s_used s) then s_used s else s_used s ++ [b];
+                  s_deliv := s_deliv s |}, false)
+            else
             ({| s_rn := rn2;
                 s_used := if existsb (N.eqb b) (s_used s) then s_used s else s_used s ++ [b];
                 s_deliv := add_deliv (s_deliv s) (block_target cfg b) r |}, true)
